@@ -499,6 +499,17 @@ def check_C06(res, ctx):
         ok = engine_history_check(res, ctx, "merge history %d" % i, out_ops)
         if i < 1:
             res.sample({"ops_head": out_ops[:25]})
+    # a SECOND merge that has nothing left to rewrite: merge, adopting restart, every key deleted, merge again, adopting restart -
+    # what the first merge left in the data directory (its hint file in particular) must not bring anything back
+    for i in range(4 if ctx.quick else 40):
+        rng = rng_for(ctx.seed, "C06e", i)
+        cfg = engine.rand_cfg(rng, io=(1 if i % 4 == 3 else 0), fs=rng.choice([4096, 20000]))
+        g = engine.Gen(rng, cfg, nkeys=rng.choice([3, 6]), weights={"merge": 0, "reopen": 0, "batch": 10, "keys": 0, "fold": 0, "dump": 0, "stat": 0}, max_val=2500)
+        ops = g.history(30)[:-3]
+        ops += ["merge", "close", engine.open_line("d", cfg), "dump"] + ["del " + k.hex() for k in g.keys] + ["merge", "close", engine.open_line("d", cfg),
+                "files d-merge", "dump", "keys", "stat", "close", engine.open_line("d", cfg), "dump", "close"]
+        engine_history_check(res, ctx, "empty second merge %d" % i, ops)
+        res.count("empty_second_merge_runs")
     # direct checks on adoption: merge dir gone, no tombstones / sealing records in adopted files
     for i in range(8 if ctx.quick else 100):
         rng = rng_for(ctx.seed, "C06a", i)
